@@ -20,6 +20,8 @@ M_CFG = """SPECIFICATION Spec
 CONSTANTS
   WMax = %d
   GenMode = "%s"
+  SeqDepth = 3
+  PrioHashes = %d
 INVARIANT CdfTotal
 INVARIANT CdfMonotone
 INVARIANT RecurrenceExact
@@ -47,7 +49,7 @@ def generate(ctx):
     quick = ctx.quick
     wmax = 6 if quick else 10
     # M + G in one exhaustive run: the invariants are the self-check, the constraint prints the points and the credential cases
-    m = ctx.tlc_must("Sortition", M_CFG % (wmax, "all", "CONSTRAINT Leaf"), name="M_G_enumeration", timeout=1500, coverage=not quick)
+    m = ctx.tlc_must("Sortition", M_CFG % (wmax, "all", 3 if quick else 8, "CONSTRAINT Leaf"), name="M_G_enumeration", timeout=1500, coverage=not quick)
     ctx.cov["exhaustive"] = m.ok
     ctx.cov["design_violation"] = m.violated
     if m.violated:
@@ -55,28 +57,33 @@ def generate(ctx):
     if getattr(m, "zero_actions", None):
         ctx.cov["coverage_zero_actions"] = m.zero_actions
     seen = set()
-    pts, creds = [], []
+    pts, creds, seqs, prios = [], [], [], []
     for v in m.printed:
-        if not isinstance(v, dict) or v.get("kind") not in ("P", "C"):
+        if not isinstance(v, dict) or v.get("kind") not in ("P", "C", "S", "Q"):
             continue
         k = json.dumps(v, sort_keys=True)
         if k in seen:
             continue
         seen.add(k)
-        (pts if v["kind"] == "P" else creds).append(v)
-    pts.sort(key=lambda r: json.dumps(r, sort_keys=True))
-    creds.sort(key=lambda r: json.dumps(r, sort_keys=True))
+        {"P": pts, "C": creds, "S": seqs, "Q": prios}[v["kind"]].append(v)
+    for lst in (pts, creds, seqs, prios):
+        lst.sort(key=lambda r: json.dumps(r, sort_keys=True))
     rnd = random.Random(ctx.seed)
     if quick:
-        # credential cases: the bases of one seed, both keys / indices / steps, every parameter triple, every perturbation
-        creds = [c for c in creds if c["base"]["sd"] == 1 + ctx.seed % 2]
-    behs = witnesses() + pts + creds
+        # credential cases: the bases of one seed (and the searched upper-tail seeds, sd = 0), both keys / indices / steps, every
+        # parameter triple, every perturbation
+        creds = [c for c in creds if c["base"]["sd"] in (0, 1 + ctx.seed % 2)]
+    # the sequences run first: nothing has been evaluated in the driver process before them
+    behs = witnesses() + seqs + pts + creds + prios
+    ctx.cov["sequences"] = len(seqs)
+    ctx.cov["priority_cases"] = len(prios)
     # seeded random cases (the driver derives its PRNG from the seed and the behaviour index)
     if quick:
         behs += [{"kind": "R", "n": 1000, "maxw": 1000}, {"kind": "R", "n": 24, "maxw": 10000}]
     else:
         behs += [{"kind": "R", "n": 500, "maxw": 1000} for _ in range(6)] + [{"kind": "R", "n": 60, "maxw": 10000}]
-    ctx.note("inputs: %d enumerated points, %d credential cases, %d random batches" % (len(pts), len(creds), sum(1 for b in behs if b["kind"] == "R")))
+    ctx.note("inputs: %d sequences, %d enumerated points, %d credential cases, %d priority cases, %d random batches" % (
+        len(seqs), len(pts), len(creds), len(prios), sum(1 for b in behs if b["kind"] == "R")))
     ctx.cov["enumerated_points"] = len(pts)
     ctx.cov["credential_cases"] = len(creds)
     return behs
@@ -87,11 +94,11 @@ def judge(ctx, behs):
     vlib.write_ndjson(bpath, behs)
     trace = ctx.path("trace.ndjson")
     info = ctx.drive("sortition", trace, behaviours=bpath, timeout=1200)
-    ev = [e for e in vlib.read_ndjson(trace) if e.get("ev") in ("choose", "verify", "priority")]
+    ev = [e for e in vlib.read_ndjson(trace) if e.get("ev") in ("choose", "verify", "priority", "seq_issue", "seq_verify")]
     ctx.cov["traces_validated_against_impl"] += len(ev)
     ctx.cov["evaluations"] += len(ev)
     # non-trivial: lines that are not skipped; distinct by (event kind, inputs)
-    ctx.cov["distinct_nontrivial"] += len({json.dumps([e.get("ev"), e.get("fn"), e.get("pert"), e.get("q"), e.get("seats")], sort_keys=True)
+    ctx.cov["distinct_nontrivial"] += len({json.dumps([e.get("ev"), e.get("fn"), e.get("pert"), e.get("q"), e.get("prio"), e.get("j"), e.get("tup"), e.get("c"), e.get("as"), e.get("h"), e["t"] if e["ev"].startswith("seq") else 0], sort_keys=True)
                                            for e in ev if "skip" not in e})
     ws = [e["q"]["w"] for e in ev if "q" in e]
     ctx.cov["max_stake"] = max(ws) if ws else 0
